@@ -4,9 +4,16 @@
 // SavePotTab).
 #include "common.h"
 #include <memory>
+#include <fstream>
+#include <sstream>
+#include <votca/tools/eigen.h>
+#define private public      // the coefficient vectors of a spline (f_, f2_) are handed from one object to another
+#define protected public
 #include <votca/tools/akimaspline.h>
 #include <votca/tools/cubicspline.h>
 #include <votca/tools/linspline.h>
+#undef private
+#undef protected
 #include <fstream>
 #include <sstream>
 #include <unistd.h>
@@ -275,7 +282,28 @@ static void spline_case(Rng &r) {
     if (periodic) y2(n2 - 1) = y2(0);
     try { sp->Interpolate(x2, y2); volatile double sink = sp->Calculate(rr); sink = sp->CalculateDerivative(rr); (void)sink; } catch (...) {}
   }
-  try { sp->Interpolate(x, y); } catch (...) { printf("C07 splder-rejected\n"); return; }
+  // one cubic spline in three served ANOTHER grid with the same number of points and another spacing before, and receives the grid of this
+  // case through getX() and its coefficients through setSplineData (the route of csg_fmatch and the spline potentials, which never call
+  // Interpolate): whatever the object derived from the first grid must not survive
+  bool defined = false;
+  if (auto *cs = dynamic_cast<tools::CubicSpline *>(sp.get())) {
+    if (r.coin(1, 3)) {
+      try {
+        Eigen::VectorXd xa(n), ya(n);
+        for (int i = 0; i < n; i++) { xa(i) = x(0) + 2.5 * (x(i) - x(0)); ya(i) = std::cos(xa(i)); }
+        if (periodic) ya(n - 1) = ya(0);
+        cs->Interpolate(xa, ya);
+        volatile double sink = cs->CalculateDerivative(0.5 * (xa(0) + xa(1))); (void)sink;
+        tools::CubicSpline fresh;
+        if (periodic) fresh.setBC(tools::Spline::splinePeriodic);
+        fresh.Interpolate(x, y);
+        cs->getX() = x;
+        cs->setSplineData(fresh.f_, fresh.f2_);
+        defined = true;
+      } catch (...) { defined = false; }
+    }
+  }
+  if (!defined) { try { sp->Interpolate(x, y); } catch (...) { printf("C07 splder-rejected\n"); return; } }
   double h = w * 0.02;
   double scale = y.cwiseAbs().maxCoeff() + 1.0;
   // the derivative is asked first (function arguments are evaluated in no fixed order: take the values one by one)
